@@ -927,7 +927,8 @@ Definition c01_op (C : cfg) (w : world) (o : op) : Prop :=
   covered_op C w o /\
   match o with
   | Chmod p => p <> c_root C
-  | Rename p q => fisdir p (w_fs w) = true -> scope C p /\ c_recursive C = true     (* a directory: renamed inside the tree *)
+  | Rename p q => fisdir p (w_fs w) = true ->                    (* a directory: renamed inside the tree to a fresh name *)
+                  scope C p /\ c_recursive C = true /\ flookup q (w_fs w) = None
   | _ => True
   end.
 
@@ -936,8 +937,10 @@ Lemma delivers_covered C full w k r o w' : RSync C w k r -> c_mask C = WATCHDOG_
 Proof.
   intros S Hm [Ho Hch] Ha. assert (Hq := rs_queue _ _ _ _ S). assert (W := rs_wf _ _ _ _ S).
   destruct Ho as [o Hqo Hn|p Hn|p Hn Hr|p q ep Np Nq El De Ed|p q ep Np Nq Hrec El De Sp Hpr Sq Elq
-                  |p q ep Np Nq Hrec Hfix El De Sp Hpr Sq Elq|p q ep Np Nq El De Hpr Hqr Hupr Hpl].
-  7:{ exfalso. destruct Hch as [Sp Hrec]; [unfold fisdir; now rewrite El|]. destruct Hpl as [Hf|[Hs _]]; [congruence | contradiction]. }
+                  |p q ep Np Nq Hrec Hfix El De Sp Hpr Sq Elq|p q ep v Np Nq Hrec El De Sp Hpr Sq Hqr Elq Dv
+                  |p q ep Np Nq El De Hpr Hqr Hupr Hpl].
+  8:{ exfalso. destruct Hch as (Sp & Hrec & _); [unfold fisdir; now rewrite El|]. destruct Hpl as [Hf|[Hs _]]; [congruence | contradiction]. }
+  7:{ exfalso. destruct Hch as (_ & _ & Hn); [unfold fisdir; now rewrite El | congruence]. }
   6:{ exfalso. destruct Hch as [Sp' _]; [unfold fisdir; now rewrite El | contradiction]. }
   - destruct o as [p|p|p|p|p|p|p q]; try contradiction; cbn [op_np] in Hn;
       destruct Hn as (d & n & -> & [Hd Hs] & Hv); assert (Np : npath (d ++ sep :: n)) by (exists d, n; repeat split; assumption);
@@ -993,8 +996,10 @@ Lemma ctr_ok_covered C full w o w' : wf_fs w -> c01_op C w o -> apply_op w o = S
 Proof.
   intros W [Ho Hch] Ha.
   destruct Ho as [o Hqo Hn|p Hn|p Hn Hr|p q ep Np Nq El De Ed|p q ep Np Nq Hrec El De Sp Hpr Sq Elq
-                  |p q ep Np Nq Hrec Hfix El De Sp Hpr Sq Elq|p q ep Np Nq El De Hpr Hqr Hupr Hpl].
-  7:{ exfalso. destruct Hch as [Sp Hrec]; [unfold fisdir; now rewrite El|]. destruct Hpl as [Hf|[Hs _]]; [congruence | contradiction]. }
+                  |p q ep Np Nq Hrec Hfix El De Sp Hpr Sq Elq|p q ep v Np Nq Hrec El De Sp Hpr Sq Hqr Elq Dv
+                  |p q ep Np Nq El De Hpr Hqr Hupr Hpl].
+  8:{ exfalso. destruct Hch as (Sp & Hrec & _); [unfold fisdir; now rewrite El|]. destruct Hpl as [Hf|[Hs _]]; [congruence | contradiction]. }
+  7:{ exfalso. destruct Hch as (_ & _ & Hn); [unfold fisdir; now rewrite El | congruence]. }
   6:{ exfalso. destruct Hch as [Sp' _]; [unfold fisdir; now rewrite El | contradiction]. }
   - destruct o as [p|p|p|p|p|p|p q]; try contradiction.
     + now apply ctr_touch.
